@@ -367,9 +367,11 @@ func checkOnce(t *T, prop func(*T)) (err *testError) {
 	}
 	defer func() { err = panicToError(recover(), 3) }()
 
+	// deferred so that non-fatal failures signalled before a skip
+	// or from a cleanup callback still fail this test case
+	defer t.failOnError()
 	defer t.cleanup()
 	prop(t)
-	t.failOnError()
 
 	return nil
 }
